@@ -164,6 +164,12 @@ def s6(ctx, rep):
     allowed = {"SimulatorCallback.on_tuning_sleep", "SimulatorBackend._advance_by_outside_time"}
     sites = ctx.all_calls_anywhere(method="advance", recv="SimulatedTimeKeeper", allow_name=False)
     sites += [(f, c) for f, c in ctx.all_calls_anywhere(method="advance", recv="TimeKeeper", allow_name=False) if (f, c) not in sites]
+    # receivers the resolver cannot type: any `.advance(...)` on something called *time_keeper*
+    for f in P.functions.values():
+        for x in walk_shallow(f.node, include_lambda=True):
+            if isinstance(x, ast.Call) and fn_name(x) == "advance" and isinstance(x.func, ast.Attribute) and "time_keeper" in U(x.func.value) \
+                    and not any(x is c for _, c in sites):
+                sites.append((f, x))
     seen = set()
     for f, call in sites:
         if id(call) in seen:
